@@ -1256,6 +1256,7 @@ struct Outcome {
     abs: Abs,
     full: Option<Vec<(bool, u64)>>,
     comp: Option<Vec<(bool, u64)>>,
+    ord_term: String, // Model/Cache.v `ofile` of the ordinal index at query time
     coh: Coherence,
     messages: Vec<String>,
     op_errors: u64,
@@ -1269,6 +1270,7 @@ fn run_case(case: &Case) -> Outcome {
     let abs = abstract_truth(&root, &b.id);
     let full = abstract_full(&root, &b.id, &abs);
     let comp = abstract_jsonl(&root, &b.id, &abs, Target::Comp);
+    let ord_term = coq_ofile(&std::fs::read(target_path(&root, &b.id, Target::Ord)).ok(), &truth_lines(&root, &b.id));
     let coh = coherence(&root, &b.id, &abs);
     let secs = if case.long { 120 } else { 90 };
     let mut hung = false;
@@ -1298,7 +1300,7 @@ fn run_case(case: &Case) -> Outcome {
         hung = fast == Ans::Hang || truth == Ans::Hang;
         results.push((q.clone(), fast, truth));
     }
-    Outcome { results, abs, full, comp, coh, messages: b.messages.clone(), op_errors: b.op_errors, writer_checks: b.writer_checks, writer_violations: b.writer_violations.clone(), ord_steps: b.ord_steps.clone() }
+    Outcome { results, abs, full, comp, ord_term, coh, messages: b.messages.clone(), op_errors: b.op_errors, writer_checks: b.writer_checks, writer_violations: b.writer_violations.clone(), ord_steps: b.ord_steps.clone() }
 }
 
 fn case_json(c: &Case) -> Value {
@@ -1472,18 +1474,24 @@ fn main() {
                             _ => true,
                         };
                     let term = format!(
-                        "{{| c_log := {}; c_full := {}; c_query := {}; c_cmp_fast := {}; c_truth := {}; c_fast := {}; c_ord := {}; c_comp := {}; c_recover := {} |}}",
+                        "{{| c_log := {}; c_full := {}; c_query := {}; c_cmp_fast := {}; c_truth := {}; c_fast := {}; c_ord := {}; c_comp := {}; c_recover := {}; c_ordidx := {} |}}",
                         log_term, full_term, coq_query_term(q, which, &out.abs, &out.messages), coq_bool(cmp), coq_list_n(&truth_enc[j]), coq_list_n(&fast_enc[j]),
                         ord_term.take().unwrap_or_else(|| "[]".into()), // the history's index write steps ride on its first case
                         // latest checkpoint through the .comp sidecar: compared when nothing can rebuild the caches before the
                         // look-up (full sidecar exact, message counts answered by intact derived caches)
-                        if (*which == "latestckpt" || *which == "cutpoints") && out.coh.full == FileState::Exact && counts_intact {
+                        if out.coh.full == FileState::Exact && ((*which == "latestckpt" && counts_intact) || (*which == "cutpoints" && out.coh.mr == FileState::Exact)) {
                             res.bump(&format!("{which}_cases_through_comp_model:comp={:?}", out.coh.comp));
                             format!("(Some {})", coq_opt(&out.comp, |ls| coq_list(ls, |(g, x)| if *g { format!("G {x}") } else { format!("B {x}") })))
                         } else {
                             "None".to_string()
                         },
-                        recover_terms.pop().unwrap_or_else(|| "None".to_string())
+                        recover_terms.pop().unwrap_or_else(|| "None".to_string()),
+                        if *which == "cutpoints" && out.coh.full == FileState::Exact && out.coh.mr == FileState::Exact {
+                            res.bump(&format!("cutpoints_cases_through_ord_model:ord={:?}{}", out.coh.ord, if out.coh.ord == FileState::WellFormedDiffers && out.coh.ord_tail_coherent { "(tail-coherent)" } else { "" }));
+                            format!("(Some {})", out.ord_term)
+                        } else {
+                            "None".to_string()
+                        }
                     );
                     let id = w.push(term);
                     flagged_case_ids.push(id);
